@@ -35,6 +35,29 @@ CLAIMS["C15"] = dict(
     technique="Kani/CBMC per-square full-domain proofs on the real magic table + index/mask contracts + spec frame lemma; exhaustive native subset enumeration (both build configurations) reported as non-deductive",
 )
 
+CLAIMS["C19"] = dict(
+    category="proof",
+    text="CacheTable::new/get/add/replace_if are extracted from the real source on every run and verified by Verus against an abstract view (sequence of (hash,value) slots) for tables of ANY size and any closure: whole-view postconditions (exactly one slot changes, nothing else), unchecked indexing turned into proved-in-bounds indexing; a trace lemma lifts the per-call contracts to arbitrary operation sequences. The panic half of new (never returns normally for any size that is not a power of two) is a second Verus obligation on the same extracted body. Kani cross-checks the unextracted code on small tables (bounded, reported separately).",
+    design_ref="DESIGN.md §6 C19",
+    note=TRUST + "assumed (listed in evidence): spec of usize::count_ones, `vec![e; n].into_boxed_slice()` yields n copies, panic! diverges, size_of usize == 8.",
+    technique="Verus loop-free contracts over an abstract Seq view on mechanically extracted real functions + bounded Kani cross-check of the unextracted code",
+)
+
+CLAIMS["C02"] = dict(
+    category="proof",
+    text="Both move-application entry points are under contract against the rule-prescribed successor s_apply for every placement satisfying the occupancy invariant and every move obeying the movement rules (a superset of the legal moves): placement, side, rights, en-passant band (upper and lower bound, the latter with the flood-fill legality spec), hash per key coordinate, monotone material — all with a SYMBOLIC opponent king; the check/pin clause per fixed opponent-king square (8 squares x 2 entry points per quick run, seed-rotated; all 128 x 2 in the thorough tier). make_move is checked for any prior content of the output board; both entry points are tied to the same spec and additionally compared on the en-passant field.",
+    design_ref="DESIGN.md §6 C02",
+    note=TRUST + "quick tier: placement/hash/ep obligations replace get_rook_rays/get_bishop_rays by EMPTY (frame assumption: the slider scan writes only checkers/pinned; the thorough tier discharges it with a havoc abstraction of the rays); table accessors replaced by closed forms that C16 obligations prove equal to them (run as part of this check); the check/pin clause covers a subset of king squares in the quick tier.",
+    technique="Kani/CBMC contracts on Board::make_move_new / make_move against an independent successor spec; hash checked coordinate-wise through a probe stand-in for the key table; per-king-square case split for the slider scan loop",
+)
+CLAIMS["C03"] = dict(
+    category="proof",
+    text="update_pin_info is proved equal to an independent eight-ray-walk specification of checkers and (raw) pinned for every placement, per fixed king square (16 seed-rotated squares per quick run, all 128 in thorough); the incremental computation at the tail of make_move/make_move_new is proved equal to the same spec on the result position (C02 obligations O2.1b/O2.2b, included here); xor keeps pieces/colour/combined in lock-step and toggles exactly one key; piece_on/color_on/king_square and every accessor agree with the bitboards; derived == compares exactly the position-determined fields, so a position reached incrementally equals the one built from scratch.",
+    design_ref="DESIGN.md §6 C03",
+    note=TRUST + "table accessors replaced by closed forms proved equal to them (C16 obligations, run as part of this check); quick tier covers a subset of king squares for the loop obligations; the FEN text layer of the statement is C06.",
+    technique="Kani/CBMC contracts on Board::update_pin_info, xor, piece_on, color_on and the make_move tails against an eight-ray-walk spec; per-king-square case split with loop unwinding assertions",
+)
+
 NOT_YET = {}
 
 
